@@ -227,6 +227,41 @@ def no_positional_columns(ctx, rule='C10-R2'):
     ctx.floor(rule, 'terms examined', n, 40)
 
 
+def no_column_ranges(ctx, rule='C10-R6'):
+    """Columns of the chunk data / the user frame are selected by name or by a list of names, never by a range of labels
+    (`frame.loc[rows, 'dt':'height']`): what lies between two column labels depends on the column order of the frame the
+    caller supplied, which is kept as it came."""
+    fx = effects(ctx)
+    p = ctx.project
+    n = 0
+    scope = ['ampycloud.utils.utils.check_data_consistency']
+    for cq in ('ampycloud.data.AbstractChunk', 'ampycloud.data.CeiloChunk'):
+        scope += [m.qname for _, m in sorted(p.klass(cq, rule).methods.items())]
+    for q in scope:
+        f = p.func(q, rule)
+        ctx.saw(f)
+        seen = set()
+        for e in fx.own_events(q):
+            for nm, v in fx.terms_of(e):
+                if nm == 'guard' or v is None:
+                    continue
+                n += 1
+                for x in T.walk(v):
+                    if tag(x) != 'sub' or tag(x[2]) != 'slice':
+                        continue
+                    bounds = [b for b in x[2][1:3] if T.is_const(b) and isinstance(b[1], str)]
+                    r = T.root(T.peel(x[1]))
+                    if bounds and (r == DATA or (tag(r) == 'p' and r[1] in ('data', 'pdf')) or tag(r) == 'lphi') \
+                            and T.key(x) not in seen:
+                        seen.add(T.key(x))
+                        ctx.violation(rule, q, e.node, e.loc(),
+                                      f'columns are selected by a range of labels {T.show(x[2], maxlen=60)}: which columns lie '
+                                      'in that range (and whether the range exists at all) depends on the column order of '
+                                      'the frame the caller supplied', instance=f'{q}: no label ranges over columns')
+    ctx.ok(rule, f'{n} terms in screening / chunk methods: no range of column labels', '')
+    ctx.floor(rule, 'terms examined', n, 200)
+
+
 # ---------------------------------------------------------------------------------------------- C10-R4
 NAME_KEYED_METHODS = {'merge', 'join', 'sort_values', 'groupby', 'merge_asof', 'merge_ordered', 'pivot', 'pivot_table',
                       'nlargest', 'nsmallest', 'value_counts'}
@@ -345,6 +380,17 @@ def _labels_of_data(t) -> bool:
     return False
 
 
+def _range_indexed(t) -> bool:
+    """t is a Series / frame built from bare values without an index: its labels are 0 .. n-1 (positions)."""
+    if tag(t) != 'call' or tag(t[1]) != 'g' or t[1][1] not in ('pandas.Series', 'pandas.DataFrame') or not t[2]:
+        return False
+    if any(k in ('index',) for k, _ in t[3]) or len(t[2]) > 1:
+        return False
+    a = T.peel(t[2][0])
+    return tag(a) in ('lc', 'list', 'tuple', 'vals') or (tag(a) == 'mcall' and a[2] in ('to_numpy', 'tolist', 'to_list')) \
+        or (tag(a) == 'call' and tag(a[1]) == 'g' and a[1][1].startswith('numpy.'))
+
+
 def positions_are_not_labels(ctx, rule='C10-R5'):
     """The chunk data has unique labels but not 0..n-1 in row order (rows are dropped after the index was reset, frames
     are re-sorted): row positions must not be used where labels are expected, nor labels as positions."""
@@ -356,7 +402,13 @@ def positions_are_not_labels(ctx, rule='C10-R5'):
         for nm, m in sorted(k.methods.items()):
             ctx.saw(m)
             bad = []
-            for e in fx.own_events(m.qname):
+            from sa.anchors import is_helper
+            # own statements, and - for the documented entry points - their helpers expanded at the call sites, where
+            # the parameters of a helper are what the caller passes (a mask over the chunk data, say)
+            events = list(fx.own_events(m.qname))
+            if not is_helper(p, m.qname):
+                events += [e for e in fx.deep_events(m.qname) if e.ctx]
+            for e in events:
                 for nm2, v in fx.terms_of(e):
                     if nm2 == 'guard' or v is None:
                         continue
@@ -373,6 +425,18 @@ def positions_are_not_labels(ctx, rule='C10-R5'):
                             bad.append((e, x, 'row positions are dropped as labels'))
                         elif tg == 'rows' and x[2] == 'pos' and T.root(x[1]) == DATA and _labels_of_data(x[3]):
                             bad.append((e, x, 'index labels are used as row positions in .iloc[...]'))
+                        elif tg in ('and', 'or', 'bin'):
+                            ops = list(x[1]) if tg in ('and', 'or') else [x[2], x[3]]
+                            fresh = [o for o in ops if _range_indexed(T.peel(o))]
+                            others = [o for o in ops if not _range_indexed(T.peel(o)) and
+                                      any(tag(y) == 'col' and T.root(y[1]) == DATA for y in T.walk(o))
+                                      and not T.find(o, _range_indexed)]
+                            if fresh and others:
+                                bad.append((e, x, 'a Series built from bare values (labels 0 .. n-1) is combined, label by '
+                                                  'label, with one that carries the labels of the chunk data'))
+                        elif tg == 'mask' and T.root(x[1]) == DATA and _range_indexed(T.peel(x[2])):
+                            bad.append((e, x, 'a Series built from bare values (labels 0 .. n-1) selects rows of the chunk '
+                                              'data by label'))
             n += 1
             seen = set()
             for e, x, why in bad:
